@@ -62,6 +62,14 @@ def generate(rng, index, tier, extra):
 def _generate(rng, index, tier, extra):  # pylint: disable=unused-argument
     roll = rng.random()
     junk = bytes(rng.getrandbits(8) for _ in range(rng.choice((1, 2, 5, 16)))).hex()
+    if roll < 0.02:
+        # BER spellings a peer may use that the library never composes: long-form and indefinite lengths.
+        # LDAP forbids the indefinite form; accepting it is fine, reporting a wrong length for it is not.
+        raw = workload.make_ldap_ber(indefinite=True)(rng)
+        path = 'cryptoparser.tls.ldap.LDAPExtendedResponseStartTLS' if raw[1:].find(b'\x78') >= 0 and b'\x78' in raw[:12] \
+            else 'cryptoparser.tls.ldap.LDAPExtendedRequestStartTLS'
+        return {'kind': 'dgram', 'cls': path, 'hex': raw.hex(), 'faults': [],
+                'trailing': junk if rng.random() < 0.5 else '', 'junk': junk}
     if roll < 0.55:
         paths = corpus.class_paths()
         path = rng.choice(paths)
